@@ -293,11 +293,13 @@ peg::parser! {
                 ast::Word::from(value)
             }
 
+        #[cache]
         rule regex_word_piece() =
             word() {} /
             specific_operator("|") {} /
             specific_operator("(") parenthesized_regex_word()* specific_operator(")") {}
 
+        #[cache]
         rule parenthesized_regex_word() =
             regex_word_piece() /
             !specific_operator(")") !specific_operator("]]") [_]
